@@ -654,6 +654,9 @@ type coldef struct {
 	BlockData BlockData
 	Column    wpg.Column
 	Notify    bool
+
+	// position of an indexed input's value in the log's topics
+	topic int
 }
 
 // Implements the [shovel.Integration] interface
@@ -727,15 +730,22 @@ func (ig *Integration) setCols() {
 		}
 		return wpg.Column{}
 	}
-	for _, input := range ig.Event.Selected() {
-		c := getCol(input.Column)
-		ig.Columns = append(ig.Columns, c.Name)
-		ig.coldefs = append(ig.coldefs, coldef{
-			Input:  input,
-			Column: c,
-			Notify: slices.Contains(ig.Notification.Columns, c.Name),
-		})
-		ig.numSelected++
+	var topic int
+	for _, top := range ig.Event.Inputs {
+		if top.Indexed {
+			topic++
+		}
+		for _, input := range top.Selected() {
+			c := getCol(input.Column)
+			ig.Columns = append(ig.Columns, c.Name)
+			ig.coldefs = append(ig.coldefs, coldef{
+				Input:  input,
+				Column: c,
+				Notify: slices.Contains(ig.Notification.Columns, c.Name),
+				topic:  topic,
+			})
+			ig.numSelected++
+		}
 	}
 	for _, bd := range ig.Block {
 		c := getCol(bd.Column)
@@ -1029,18 +1039,17 @@ func (ig Integration) processLog(rows [][]any, lwc *logWithCtx, pgmut *sync.Mute
 			return nil, fmt.Errorf("scanning abi data: %w", err)
 		}
 		for i := 0; i < ig.resultCache.Len(); i++ {
-			ictr, actr := 1, 0
+			actr := 0
 			frs := filterResults{kind: ig.filterAGG}
 			row := make([]any, len(ig.coldefs))
 			for j, def := range ig.coldefs {
 				switch {
 				case def.Input.Indexed:
-					d := dbtype(def.Input.Type, lwc.l.Topics[ictr])
+					d := dbtype(def.Input.Type, lwc.l.Topics[def.topic])
 					if err := def.Input.Accept(lwc.ctx, pgmut, pg, d, &frs); err != nil {
 						return nil, fmt.Errorf("checking filter: %w", err)
 					}
 					row[j] = d
-					ictr++
 				case !def.BlockData.Empty():
 					var d any
 					switch {
@@ -1072,7 +1081,7 @@ func (ig Integration) processLog(rows [][]any, lwc *logWithCtx, pgmut *sync.Mute
 		for i, def := range ig.coldefs {
 			switch {
 			case def.Input.Indexed:
-				d := dbtype(def.Input.Type, lwc.l.Topics[1+i])
+				d := dbtype(def.Input.Type, lwc.l.Topics[def.topic])
 				if err := def.Input.Accept(lwc.ctx, pgmut, pg, d, &frs); err != nil {
 					return nil, fmt.Errorf("checking filter: %w", err)
 				}
